@@ -237,6 +237,9 @@ func mutateGenesisWith(cdc codec.JSONCodec, gs app.GenesisState, mintReduction i
 	var ig incentivestypes.GenesisState
 	cdc.MustUnmarshalJSON(gs[incentivestypes.ModuleName], &ig)
 	ig.Params.DistrEpochIdentifier = "day"
+	// the module's default genesis leaves this parameter empty, which makes every
+	// lock-based distribution skip every reward as "worth too little"
+	ig.Params.MinValueForDistribution = incentivestypes.DefaultMinValueForDistr
 	ig.LockableDurations = lockDurations
 	gs[incentivestypes.ModuleName] = cdc.MustMarshalJSON(&ig)
 
@@ -662,6 +665,22 @@ func (w *world) block(st simcore.Step, dt time.Duration, inBurst bool) {
 		if w.kvDiffPending && !rd.Halted() {
 			w.kvDiffPending = false
 			w.kvDiff()
+		}
+	}
+	if os.Getenv("VERIF_C19_DEBUG") != "" {
+		cnt := map[string]int{}
+		for _, e := range ra.Events {
+			cnt[e.Type]++
+		}
+		fmt.Fprintf(os.Stderr, "h=%d t=%s block events: %v\n", w.h, w.now.Sub(w.g.Time), cnt)
+		qc := w.A.QueryCtx()
+		for _, g := range w.A.App.IncentivesKeeper.GetGauges(qc) {
+			fmt.Fprintf(os.Stderr, "   gauge %d to=%v start=%s perpetual=%v coins=%s distributed=%s filled=%d/%d upcoming=%v active=%v\n", g.Id, g.DistributeTo, g.StartTime.Sub(w.g.Time), g.IsPerpetual, g.Coins, g.DistributedCoins, g.FilledEpochs, g.NumEpochsPaidOver, g.IsUpcomingGauge(w.now), g.IsActiveGauge(w.now))
+		}
+		for i := range w.g.Accts {
+			for _, l := range w.A.App.LockupKeeper.GetAccountPeriodLocks(qc, w.g.Accts[i]) {
+				fmt.Fprintf(os.Stderr, "   lock %d owner=%d %s dur=%s end=%v\n", l.ID, i, l.Coins, l.Duration, l.EndTime)
+			}
 		}
 	}
 	if os.Getenv("VERIF_C19_DEBUG") != "" { // investigation aid: is the poolmanager route cache warm for the next (non-existent) pool id?
